@@ -2,7 +2,7 @@
    Statements only; proofs are in Proofs/ValidateOverlap.v and Proofs/ValidateRules.v. *)
 From Coq Require Import List NArith ZArith String Bool.
 From GQL Require Import Exec.Syntax Validate.VSyntax Validate.Overlap Validate.OverlapSpec Validate.Rules
-     Exec.Exec Proofs.ValidateOverlap Proofs.ValidateRules Proofs.ValidateMerge Proofs.ValidateMemo Proofs.ValidateInputFields Proofs.ValidateArgs Proofs.ValidateCycles Proofs.ValidateUnused.
+     Exec.Exec Proofs.ValidateOverlap Proofs.ValidateRules Proofs.ValidateMerge Proofs.ValidateMemo Proofs.ValidateInputFields Proofs.ValidateArgs Proofs.ValidateCycles Proofs.ValidateUnused Proofs.ValidateMemoHard Proofs.ValidateL1 Validate.All Proofs.ValidateAll Proofs.ValidateCyclesComplete.
 Import ListNotations.
 Open Scope string_scope.
 
@@ -40,6 +40,25 @@ Theorem C02_overlap_memo_transparent_partial : forall S D memo fuel,
 Proof. exact L2_accepts_exec. Qed.
 Print Assumptions C02_overlap_memo_transparent_partial.
 
+(* Memo transparency, the hard direction: the memo tables never hide a conflict.  For every
+   document (cyclic or not) whose selection sets are told apart by (parent type, id of the
+   first selection) -- the implementation tells them apart by pointer -- and whose fields have
+   unique argument names (otherwise sameArguments is not symmetric while the pair memo is):
+   if the memoised algorithm (L3) completes within its fuel and reports nothing, then the
+   unmemoised algorithm (L2 as coded) reports nothing at any fuel.  With
+   C02_overlap_memo_transparent_partial (L2 accepts => L3 accepts): L3 and L2 agree on
+   accept/reject.  Proof: the memoised run is a depth-first search with a visited set; at
+   its end every memo entry is locally correct w.r.t. the final tables and everything it
+   would recurse into is covered, and the unmemoised run only asks covered questions
+   (DS, ids_distinct, args_unique are defined in Proofs/ValidateMemoHard.v). *)
+Theorem C02_overlap_memo_transparent : forall S D fuel fuel',
+  ids_distinct S D -> args_unique S D ->
+  run_complete S D true fuel = true ->
+  run_overlap S D true fuel = [] ->
+  run_overlap S D false fuel' = [].
+Proof. exact memo_transparent. Qed.
+Print Assumptions C02_overlap_memo_transparent.
+
 (* Hence the model of the rule never rejects a document that satisfies the specification L1. *)
 Theorem C02_overlap_accepts_valid : forall S D memo fuel,
   acyclic S D -> L1_accepts S D -> run_overlap S D memo fuel = [].
@@ -70,6 +89,15 @@ Theorem C02_merge_safe_partial : forall S D,
     oc_name o1 = oc_name o2 /\ same_args (oc_args o1) (oc_args o2) = true.
 Proof. exact merge_safe_level. Qed.
 Print Assumptions C02_merge_safe_partial.
+
+(* The executable Spec oracle of the runner.  L1o is the brute-force check as a three-valued
+   function (None = it ran out of fuel); whenever it returns a verdict, the verdict is the
+   truth value of the Spec L1_accepts -- for every schema, document (cyclic or not) and fuel. *)
+Theorem C02_L1_oracle_reflects : forall S D fuel,
+  (L1o S D fuel = Some true -> L1_accepts S D) /\
+  (L1o S D fuel = Some false -> ~ L1_accepts S D).
+Proof. exact L1o_reflect. Qed.
+Print Assumptions C02_L1_oracle_reflects.
 
 (* L0, merge safety, recursively (MS, group_entries, sub_entries are defined in
    Proofs/ValidateMerge.v).  For a selection set that passes L1 and every depth n: whatever
@@ -231,6 +259,38 @@ Theorem C02_rule_complete_no_unused_fragments_partial : forall W,
   Violates_no_unused_fragments W -> rule_no_unused_fragments W <> [].
 Proof. exact no_unused_fragments_complete. Qed.
 Print Assumptions C02_rule_complete_no_unused_fragments_partial.
+
+(* NoFragmentCycles, both directions: with unique fragment names the DFS as coded reports an
+   error exactly when some fragment reaches itself through spreads. *)
+Theorem C02_rule_iff_no_fragment_cycles : forall W,
+  NoDup (map wf_name (w_frags W)) ->
+  (rule_no_fragment_cycles W <> [] <-> Violates_no_fragment_cycles W).
+Proof. exact no_fragment_cycles_iff. Qed.
+Print Assumptions C02_rule_iff_no_fragment_cycles.
+
+(* NoUnusedFragments, both directions, when the closure iteration of the model did not fall
+   short (closures_stable is an executable test; RecursivelyReferencedFragments itself is a
+   terminating worklist). *)
+Theorem C02_rule_iff_no_unused_fragments : forall W,
+  closures_stable W = true ->
+  (rule_no_unused_fragments W <> [] <-> Violates_no_unused_fragments W).
+Proof. exact no_unused_fragments_iff. Qed.
+Print Assumptions C02_rule_iff_no_unused_fragments.
+
+(* The validator's model accepts a document iff no rule is violated (Violates r is the
+   declarative predicate of rule r; for the overlap rule it is ~ L1_accepts).  Hypotheses =
+   the documented exceptions: the closure test above; unique fragment names (needed by the
+   NoFragmentCycles DFS); for the overlap rule acyclicity and "the memoised algorithm's acceptance implies L1"
+   (proved: L1 => acceptance, and acceptance of L3 => acceptance of the unmemoised algorithm;
+   not proved: the reflection of the unmemoised executable into the Prop-level decomposition). *)
+Theorem C02_accept_iff : forall fuel S W,
+  closures_stable W = true ->
+  NoDup (map wf_name (w_frags W)) ->
+  acyclic S (erase W) ->
+  (run_overlap S (erase W) true fuel = [] -> L1_accepts S (erase W)) ->
+  (validate_model fuel S W = [] <-> forall r, ~ Violates r S W).
+Proof. exact accept_iff. Qed.
+Print Assumptions C02_accept_iff.
 
 (* ---- non-vacuity ---- *)
 Definition exS : schema :=
